@@ -151,6 +151,11 @@ def py_grad(stack, x, consts, wrt_x):
         fw = eb._forward_eval(stack, x, consts)
         with RevTrace() as tr:
             val, d = eb.evaluate_with_derivative(stack, x, consts, wrt_x)
+        # the tracer copies adjoint arrays when it records a step, which can hide aliasing between them: what the oracle
+        # judges is an UNINSTRUMENTED call (and the two must agree)
+        val_u, d_u = eb.evaluate_with_derivative(stack, x, consts, wrt_x)
+        if not (np.array_equal(np.asarray(d), np.asarray(d_u), equal_nan=True) and np.array_equal(np.asarray(val), np.asarray(val_u), equal_nan=True)):
+            return "ok-untraced-differs", fw, val_u, d_u, None
         return "ok", fw, val, d, tr.steps
     except ArithmeticError:
         return "zerodiv", None, None, None, None
@@ -160,7 +165,7 @@ def py_grad(stack, x, consts, wrt_x):
 
 def gen_cases(ctx):
     rng = ctx.rng
-    cases = [("hand", st, 2) for st in G.hand_shapes(D=2)]
+    cases = [("hand", st, 2) for st in G.hand_shapes(D=2)] * 3        # each hand shape at nice and at special points
     for k in range(ctx.n(1200, 30000)):
         D = rng.choice([1, 2, 3])
         ops = rng.choice(G.OP_SUBSETS)
@@ -198,6 +203,10 @@ def run(ctx, rep):
         stack_l, L = G.renumber(stack_l)
         stack = np.array(stack_l, dtype=int).reshape(-1, 3)
         nice = rng.random() < 0.6
+        if origin == "hand":
+            hand_seen = getattr(ctx, "_hand_seen", 0)
+            ctx._hand_seen = hand_seen + 1
+            nice = (hand_seen // len(G.hand_shapes(D=2))) != 1         # passes 0 and 2 at nice points, pass 1 at special ones
         M = rng.choice([1, 2, 3])
         if nice:
             x = np.array([[G.nice_value(rng) for _ in range(D)] for _ in range(M)], dtype=float)
@@ -220,6 +229,9 @@ def run(ctx, rep):
             if status == "other":
                 rep.violate("well-formed stack raised a non-arithmetic exception in evaluate_with_derivative", "C02:backend-exception", case)
                 continue
+            if status == "ok-untraced-differs":
+                rep.disagree("the gradient of an untraced call differs from the traced call (adjoint arrays aliased / state carried over)", case)
+                status = "ok"
             if status == "ok":
                 rep.sample({"stack": G.describe(stack_l), "wrt": wrt, "x": x.tolist(), "consts": case["consts"], "grad": np.asarray(d).tolist()})
                 # ---- oracle: shapes, value == plain evaluation, exact zeros, analytic derivative
